@@ -15,6 +15,8 @@
 (*   evt, sub                 Deadline.EVENT_KEY signalled; the send loop   *)
 (*                            subscribed timeout_proc                       *)
 (*   tproc   set of requests  a deferred Observable notification is pending *)
+(*   sent    request -> BOOLEAN  msg.properties[Tag.SENT_KEY]: the send loop *)
+(*                            has written the request (5f62552)             *)
 (*   stack   request -> "new" | "wait" | "done": the caller's sink stack    *)
 (*                            (drained by the first response message)      *)
 (*   unans   set of requests  broker: frames received and not yet answered *)
@@ -29,6 +31,9 @@
 (* order, at any time: also long after the client gave up), RecvStep        *)
 (* (_RecvLoop iteration), ProcessReply (_ProcessTaggedReply).               *)
 (*                                                                         *)
+(* FixSent = TRUE is the code (5f62552): _ProcessTaggedReply drops a reply  *)
+(* frame naming the tag of a request that has not been written yet; FALSE   *)
+(* is the code before that repair.                                          *)
 (* ReleaseOnTimeout = FALSE is the code (`_OnTimeout: pass`: the id stays   *)
 (* reserved until the broker answers); TRUE is the design in which a       *)
 (* client-side timeout returns the id to the pool: the next request takes  *)
@@ -37,11 +42,11 @@
 (***************************************************************************)
 EXTENDS KafkaCorrAbs
 
-CONSTANTS Reqs, MaxTag, ReleaseOnTimeout
+CONSTANTS Reqs, MaxTag, ReleaseOnTimeout, FixSent
 
-VARIABLES pool, tagmap, tagkey, hdr, sendq, evt, sub, tproc, stack, unans, inbound, replyq, viol
+VARIABLES pool, tagmap, tagkey, hdr, sendq, evt, sub, tproc, stack, unans, inbound, replyq, viol, sent
 
-vars == <<pool, tagmap, tagkey, hdr, sendq, evt, sub, tproc, stack, unans, inbound, replyq, viol, lreq, lrep>>
+vars == <<pool, tagmap, tagkey, hdr, sendq, evt, sub, tproc, stack, unans, inbound, replyq, viol, sent, lreq, lrep>>
 
 Init ==
   /\ pool = [next |-> 1, free |-> {}]
@@ -54,6 +59,7 @@ Init ==
   /\ stack = [r \in Reqs |-> "new"]
   /\ unans = {}
   /\ viol = "ok"
+  /\ sent = [r \in Reqs |-> FALSE]
   /\ LInit
 
 Note(c) == viol' = IF viol = "ok" THEN c ELSE viol
@@ -80,7 +86,7 @@ Request(r) ==
        /\ Note(LReqCheck(r)) /\ LReqUpd(r, LProduce, tag)
   /\ sendq' = Append(sendq, r)
   /\ stack' = [stack EXCEPT ![r] = "wait"]
-  /\ UNCHANGED <<evt, sub, tproc, unans, inbound, replyq>>
+  /\ UNCHANGED <<evt, sub, tproc, unans, inbound, replyq, sent>>
 
 \* the deadline: the event is set (subscribers are notified later, by a spawned greenlet), the timeout
 \* message drains the stack: the caller gets TimeoutError
@@ -89,8 +95,8 @@ Timeout(r) ==
   /\ evt' = [evt EXCEPT ![r] = TRUE]
   /\ tproc' = IF sub[r] THEN tproc \cup {r} ELSE tproc
   /\ stack' = [stack EXCEPT ![r] = "done"]
-  /\ Note(LDoneCheck(r, "TimeoutError", {})) /\ LDoneUpd(r, "TimeoutError", {})
-  /\ UNCHANGED <<pool, tagmap, tagkey, hdr, sendq, sub, unans, inbound, replyq>>
+  /\ Note(LDoneCheck(r, "TimeoutError", {}, 0)) /\ LDoneUpd(r, "TimeoutError", {})
+  /\ UNCHANGED <<pool, tagmap, tagkey, hdr, sendq, sub, unans, inbound, replyq, sent>>
 
 \* timeout_proc: pop Tag.KEY; if it was still there: _OnTimeout(tag)
 TimeoutProc(r) ==
@@ -100,7 +106,7 @@ TimeoutProc(r) ==
   /\ IF tagkey[r] # 0 /\ ReleaseOnTimeout
      THEN LET rel == Release(tagkey[r], tagmap, pool) IN tagmap' = rel.map /\ pool' = rel.pool
      ELSE UNCHANGED <<tagmap, pool>>
-  /\ UNCHANGED <<hdr, sendq, evt, sub, stack, unans, inbound, replyq, viol, lreq, lrep>>
+  /\ UNCHANGED <<hdr, sendq, evt, sub, stack, unans, inbound, replyq, viol, sent, lreq, lrep>>
 
 \* ---- the send loop ---------------------------------------------------------------------
 SendStep ==
@@ -112,10 +118,11 @@ SendStep ==
              LET rel == Release(tagkey[r], tagmap, pool) IN
              /\ tagkey' = [tagkey EXCEPT ![r] = 0]
              /\ IF tagkey[r] # 0 THEN tagmap' = rel.map /\ pool' = rel.pool ELSE UNCHANGED <<tagmap, pool>>
-             /\ UNCHANGED <<sub, unans>>
-        ELSE \* subscribe timeout_proc, write the frame: the broker has it
+             /\ UNCHANGED <<sub, unans, sent>>
+        ELSE \* subscribe timeout_proc, write the frame: the broker has it; mark the request as written
              /\ sub' = [sub EXCEPT ![r] = TRUE]
              /\ unans' = unans \cup {r}
+             /\ sent' = [sent EXCEPT ![r] = TRUE]
              /\ UNCHANGED <<pool, tagmap, tagkey>>
   /\ UNCHANGED <<hdr, evt, tproc, stack, inbound, replyq, viol, lreq, lrep>>
 
@@ -125,30 +132,33 @@ BrokerAnswer(w) ==
   /\ w \in unans
   /\ unans' = unans \ {w}
   /\ inbound' = Append(inbound, <<Len(lrep) + 1, hdr[w]>>)
-  /\ Note(LReplyCheck(w, hdr[w])) /\ LReplyUpd(w, LProduce, hdr[w], Len(lrep) + 1)
-  /\ UNCHANGED <<pool, tagmap, tagkey, hdr, sendq, evt, sub, tproc, stack, replyq>>
+  /\ Note(LReplyCheck(w, hdr[w])) /\ LReplyUpd(w, LProduce, hdr[w], Len(lrep) + 1, 0)
+  /\ UNCHANGED <<pool, tagmap, tagkey, hdr, sendq, evt, sub, tproc, stack, replyq, sent>>
 
 \* ---- the receive loop -------------------------------------------------------------------
 RecvStep ==
   /\ inbound # <<>>
   /\ replyq' = Append(replyq, Head(inbound)) /\ inbound' = Tail(inbound)
-  /\ UNCHANGED <<pool, tagmap, tagkey, hdr, sendq, evt, sub, tproc, stack, unans, viol, lreq, lrep>>
+  /\ UNCHANGED <<pool, tagmap, tagkey, hdr, sendq, evt, sub, tproc, stack, unans, viol, sent, lreq, lrep>>
 
 \* _ProcessReply -> _ProcessTaggedReply(tag): whoever is filed under the tag gets the stream
 ProcessReply ==
   /\ replyq # <<>>
   /\ LET k == Head(replyq)[1] tag == Head(replyq)[2] rel == Release(tag, tagmap, pool) IN
      /\ replyq' = Tail(replyq)
-     /\ tagmap' = rel.map /\ pool' = rel.pool
-     /\ IF tag \in DOMAIN tagmap
-        THEN LET r == tagmap[tag] IN
-             /\ tagkey' = [tagkey EXCEPT ![r] = 0]
-             /\ IF stack[r] = "wait"
-                THEN /\ stack' = [stack EXCEPT ![r] = "done"]       \* decoded and handed to the caller
-                     /\ Note(LDoneCheck(r, "none", {k})) /\ LDoneUpd(r, "none", {k})
-                ELSE UNCHANGED <<stack, viol, lreq, lrep>>           \* a drained stack ignores it
-        ELSE UNCHANGED <<tagkey, stack, viol, lreq, lrep>>
-  /\ UNCHANGED <<hdr, sendq, evt, sub, tproc, unans, inbound>>
+     /\ IF FixSent /\ tag \in DOMAIN tagmap /\ ~sent[tagmap[tag]]
+        THEN \* the request holding the tag is still in the send queue: a stray frame, dropped, the tag stays
+             UNCHANGED <<tagmap, pool, tagkey, stack, viol, lreq, lrep>>
+        ELSE /\ tagmap' = rel.map /\ pool' = rel.pool
+             /\ IF tag \in DOMAIN tagmap
+                THEN LET r == tagmap[tag] IN
+                     /\ tagkey' = [tagkey EXCEPT ![r] = 0]
+                     /\ IF stack[r] = "wait"
+                        THEN /\ stack' = [stack EXCEPT ![r] = "done"]       \* decoded and handed to the caller
+                             /\ Note(LDoneCheck(r, "none", {k}, 0)) /\ LDoneUpd(r, "none", {k})
+                        ELSE UNCHANGED <<stack, viol, lreq, lrep>>           \* a drained stack ignores it
+                ELSE UNCHANGED <<tagkey, stack, viol, lreq, lrep>>
+  /\ UNCHANGED <<hdr, sendq, evt, sub, tproc, unans, inbound, sent>>
 
 Next ==
   \/ \E r \in Reqs : Request(r) \/ Timeout(r) \/ TimeoutProc(r) \/ BrokerAnswer(r)
